@@ -506,7 +506,10 @@ c_get_name_int (char *name, OrcCompiler *p, OrcInstruction *insn, int var)
       if (p->vars[var].value.i == (int)p->vars[var].value.i) {
         sprintf(name, "%d", (int)p->vars[var].value.i);
       } else {
-        ORC_ASSERT(0);
+        /* a program can put any 64-bit constant here (shlq d, s, 0x100000000L) */
+        ORC_COMPILER_ERROR (p, "constant %s does not fit an int",
+            p->vars[var].name);
+        sprintf(name, "0");
       }
     }
   } else {
